@@ -141,6 +141,27 @@ def gen_fixed(rng, cfg, combs, count, tag, panic=0.03, style="mixed", allow_zero
     return out
 
 
+NESTS_FUT = ("nest_jj", "nest_jr", "nest_rj", "nest_jt", "nest_gj")
+# (a zip of merges is built by the harness too, "nest_zm", but is not generated: zip deliberately holds an input back while its item for the current
+#  row is buffered, so a woken leaf below that input is legitimately not polled - the leaf-level monitors have no notion of "awaited" per level)
+NESTS_STR = ("nest_mm", "nest_cm", "nest_gm")
+
+
+def gen_nest(rng, count, tag, panic=0.02, combs=None):
+    """two inner combinators over the two halves of the leaves, one outer combinator over them (harness build_nest); no model: monitors only"""
+    out = []
+    for c in range(count):
+        comb = rng.choice(combs or (NESTS_FUT + NESTS_STR))
+        n = rng.randint(2, 6)
+        if comb in NESTS_FUT:
+            scs = ";".join(fscript(rng, n, i, False, panic) for i in range(n))
+        else:
+            scs = ";".join(sscript(rng, n, i, panic) for i in range(n))
+        ops = ops_executor(rng, n) if rng.random() < 0.5 else ops_adversarial(rng, n)
+        out.append(f"{tag}{c} {comb} nest n={n} {scs} | {' '.join(ops)}")
+    return out
+
+
 def gen_wait(rng, count, tag, panic=0.03):
     out = []
     for c in range(count):
@@ -305,7 +326,9 @@ def gen_small(comb, cont, n, maxlen, maxops, tag, with_drop=True):
 
 # ---------------------------------------------------------------- concurrent streams
 CO_STACKS = ["", "lim", "take", "enum", "map", "map.lim", "lim.map", "take.lim", "lim.take", "enum.map", "map.take", "enum.take",
-             "take.enum", "lim.enum.map"]
+             "take.enum", "lim.enum.map",
+             # the same adapter twice: the effective take is the smaller bound, the effective limit the outer one (Limit::concurrency_limit)
+             "take.take", "take.map.take", "take.enum.take", "lim.lim", "lim.map.lim"]
 
 
 CO_RCOL_STACKS = ["map", "map.lim", "lim.map", "enum.map", "map.take", "lim.enum.map"]
@@ -319,8 +342,8 @@ def gen_co(rng, count, tag, terms=("fe", "tfe", "col"), stacks=None, drop=0.015,
         stack = rng.choice([x for x in stacks if x in CO_RCOL_STACKS] if term == "rcol" else stacks)
         n = rng.randint(0, 5)
         nc = 1 + 2 * n
-        take = rng.randint(0, n + 1) if "take" in stack else "-"
-        lim = rng.choice([0, 1, 1, 2, 3]) if "lim" in stack else "-"
+        take = ",".join(str(rng.randint(0, n + 1)) for _ in range(stack.count("take"))) if "take" in stack else "-"
+        lim = ",".join(str(rng.choice([0, 1, 1, 2, 3])) for _ in range(stack.count("lim"))) if "lim" in stack else "-"
 
         def cf():
             f = []
